@@ -762,3 +762,5 @@ SELFTEST = [
                 "        slog::debug!(rqctx.log, \"multipart body\"; \"boundary\" => &boundary);\n        let limited = StreamingBody::new(body, rqctx.request_body_max_bytes());\n        let parts_stream = limited.into_stream();\n        Ok(MultipartBody { content: multer::Multipart::new(parts_stream, boundary) })")],
      "why": "behaviour-preserving: a debug log line added, locals renamed"},
 ]
+
+LEVEL_TEXT += ' Also (R7 = C11.R6): the body stream refuses only on counted bytes, a sound lower bound or a transport error, so every framing (Content-Length, chunked, length-less) is treated alike.'
